@@ -19,9 +19,11 @@ RULE = ("gates: every built-in x a parameter alphabet (ints, floats incl. 1e-07 
         "save/load (path, StringIO), circuit sets. Oracle = own structural walker (kind, nesting, control counts, exponent, definition, indices, parameters by the "
         "statement's rules) + library == + free symbols + matrices at two assignments. non-trivial = circuit with a wrapped, custom or symbolic gate")
 RULE += ' Also: circuit sets whose members are equal up to the gate tolerance but not identical; histories load -> extend with gates of the original custom definition -> serialise again.'
+RULE += ' Round 6: custom definitions whose formal parameters are indexed symbols / shadow sympy names (x[0], p[10], gamma, S, N, E, lambda_), instantiated with numbers, own formals in both orders, other symbols.'
 RULE += ' Round 5: 24 same-named custom definitions with different matrices created, serialised and dropped in one process; exponents 0, 0.0, 1, -1, -0.5, 1/3, -2.0 and 3 controls; empty and singleton circuit sets through files.'
 ASSUMPTIONS = ["symbol names are identifiers other than Python keywords; a plain and an indexed symbol never share a base name; symbols carry no assumptions",
-               "custom gate names do not collide with built-in names or wrapper markers"]
+               "custom gate names do not collide with built-in names or wrapper markers",
+               "a custom definition whose FORMAL parameter is the symbol named I while its matrix also contains the imaginary unit has no text representation (both print as I): outside the alphabet, like keywords"]
 BOUNDS = {"quick": {"wrapper_depth": 2, "two_op_subalphabet": 14}, "thorough": {"wrapper_depth": 3, "two_op_subalphabet": 24}}
 
 PARAMS = ["k:pi", "k:E", "k:2*pi", 0.5, -1.25, 3, 1e-07, 0.30000000000000004, "r:1/3", "s:pi/3", "f:0.1", "s:theta", "s:gamma", "s:S", "s:I", "s:E", "s:lambda_", "s:x[3]", "s:y[10]", "s:2*theta+0.1",
@@ -67,6 +69,8 @@ def build_gate(d):
             return _gates.Exponential(inner)
         return {"controlled": lambda: inner.controlled(d["k"]), "dagger": lambda: inner.dagger, "power": lambda: inner.power(d["e"]), "exp": lambda: inner.exp}[d["w"]]()
     ps = tuple(sym_param(p) for p in d.get("p", []))
+    if d["g"] == "named" and d.get("formal"):
+        return formal_definition(d["name"], tuple(d["formal"]))(*ps)
     if d["g"] == "named":
         return named_definition(d["name"], len(ps), d.get("variant", 0))(*ps)
     if d["g"].startswith("custom"):
@@ -91,6 +95,19 @@ def named_definition(name, npar, variant):
         else:
             M = sympy.Matrix([[sympy.cos(a), -sympy.sin(a)], [sympy.sin(a), sympy.cos(a)]]) if variant == 0 else sympy.Matrix([[1, 0], [0, sympy.exp(sympy.I * a)]])
             _NAMED[key] = C.CustomGateDefinition(name, M, (a,))
+    return _NAMED[key]
+
+
+def formal_definition(name, formal):
+    """custom definition whose FORMAL parameters carry the given names (indexed symbols x[0], names shadowing sympy objects, ...); 1 or 2 parameters, not symmetric in them"""
+    from orquestra.quantum import circuits as C
+    key = (name, formal)
+    if key not in _NAMED:
+        fs = [sympy.Symbol(n) for n in formal]
+        a, b = fs[0], fs[-1]
+        M = sympy.Matrix([[sympy.cos(a), -sympy.sin(a) * sympy.exp(sympy.I * b / 2)], [sympy.sin(a) * sympy.exp(-sympy.I * b / 2), sympy.cos(a)]]) if len(fs) == 2 else \
+            sympy.Matrix([[1, 0], [0, sympy.exp(sympy.I * a / 3)]])
+        _NAMED[key] = C.CustomGateDefinition(name, M, tuple(fs))
     return _NAMED[key]
 
 
@@ -368,6 +385,11 @@ def run(run):
     NAMES = ["sx", "rx", "Rx", "u3", "cnot", "x", "Swap", "ms", "control", "dagger", "exponential", "power", "Union", "Callable", "GateRef", "GatePrototype", "_gates", "_matrices",
              "make_parametric_gate_prototype", "builtin_gate_by_name", "my_gate_2", "lambda_gate", "G", "sympy", "Gate"]
     gates += [{"g": "named", "name": "exact_constants", "variant": 2}]
+    # definitions whose FORMAL parameters are indexed symbols / shadow sympy names / sort unnaturally, instantiated with numbers, their own formals (both orders), other symbols
+    for fi, formal in enumerate((["x[0]", "x[1]"], ["p[10]", "gamma"], ["lambda_", "S"], ["x[0]", "y[0]"], ["beta", "N"], ["theta_10", "theta_2"], ["x[3]"], ["E"], ["x[12]", "x[2]"])):
+        insts = [[0.5, -1.25], ["s:" + formal[0], "s:" + formal[-1]], ["s:" + formal[-1], "s:" + formal[0]], ["s:theta", "s:2*%s+0.1" % formal[0]], ["s:x[3]", 0.25]] if len(formal) == 2 else \
+                [[0.5], ["s:" + formal[0]], ["s:theta"], ["s:x[7]"], ["s:2*%s" % formal[0]]]
+        gates += [{"g": "named", "name": "formal%d" % fi, "formal": formal, "p": ps_} for ps_ in insts]
     gates += [{"g": "named", "name": nm} for nm in NAMES] + [{"g": "named", "name": nm, "p": [p]} for nm in NAMES for p in (0.5, "s:theta")]
 
     def place(g):
